@@ -206,6 +206,21 @@ PROPS = {
         "assumptions": ["documented: KV routes expose _sys_auth::* keys to data roles (accepted scope decision) - not judged; empty namespace lists are not generated",
                         "route x name x credential product is input enumeration run inside the simulator; the clock (expiry) and restart histories are the simulation-specific part"],
     },
+    "C19": {
+        "level": "exploration", "quick": 400, "thorough": 20000, "batch": 10, "vlimit_kb": 8 * 1024 * 1024,
+        "rule": ("the real server handler chain over a simulated engine (asynchronous tasks settled by quiescence) receives 20-80 requests per run "
+                 "over 36 data-plane routes (KV, vector, index, graph, system stats): a valid body template mutated by one operator (field deleted, "
+                 "wrong JSON type, null, empty, huge, negative, 200-1000 levels of nesting, unknown field, wrong dimension, k/batch/dimension over the "
+                 "published limit, nine non-JSON bodies) and resource names (existing, unknown, empty, ../../sentinel, .., absolute path, separators, "
+                 "percent-encoded traversal, 300 characters, NUL, bidi). Oracle: panic never escapes and the recovery middleware's log line never appears "
+                 "(captured slog); status in 100..599 and JSON bodies parse; non-JSON / wrong-type / over-limit bodies -> 4xx; 4xx => full public read-out "
+                 "unchanged; NO file-system call (verifos event stream) with a path outside the data directory at request time or during the replay "
+                 "after a restart (half of the runs), and a sentinel directory next to the data directory stays intact. Non-trivial: >=10 requests; "
+                 "distinct = program hash."),
+        "real_vs_stub": REAL + "; real: internal/server handlers and middleware; stub: HTTP transport (ServeHTTP + recorder), no embedder",
+        "assumptions": ["input-space sampling executed inside the simulator; the simulator's own contribution is the file-system path monitor, task settling and the restart",
+                        "body-size limit (512 MB) is not exercised; an unknown field is not required to be rejected (the statement lists non-JSON and wrong types)"],
+    },
 }
 
 
@@ -215,6 +230,12 @@ NOT_APPLICABLE["C20"] = ("pure functions of their input (text analysis, chunking
                          "no schedule, fault or interleaving for a simulator to decide; property-based testing territory, see DESIGN.md section 7")
 
 MANIFEST_TEXT = {
+    "C19": {
+        "text": "Seeded exploration of mutated request bodies and hostile resource names through the real handler chain, with the file-system event stream of the instrumented engine as a confinement monitor (every path of every call, at request time and during replay after restart), a captured-log check for the panic-recovery path, and read-out comparison for 4xx answers.",
+        "design_ref": "DESIGN.md section 6 C19",
+        "note": "Mostly input-space sampling; 36 routes, one mutation per request. Confinement is checked at the moment of each file-system call, not only by diffing directories afterwards.",
+        "technique": "deterministic simulation: seeded request mutation through ServeHTTP + file-system path monitor (verifos) + restart injection",
+    },
     "C16": {
         "text": "Seeded exploration of routes x resource names x credentials through the real handler chain over a simulated engine, with a reference policy (401 without valid credential, read never mutates, write never administers, namespace isolation) and restart histories under the simulated clock for revocation, key persistence and expiry.",
         "design_ref": "DESIGN.md section 6 C16",
